@@ -168,7 +168,7 @@ type pooled struct {
 	uses int
 }
 
-var pool [4]pooled
+var pool [1]pooled
 
 func freshStore(slot int) *leveldbstore.LevelDBStore {
 	p := &pool[slot]
@@ -195,15 +195,14 @@ func freshStore(slot int) *leveldbstore.LevelDBStore {
 	return p.st
 }
 
-// apply runs ops on a fresh overlay over store slot `slot`, pre-populated with `pre` (and by 's' ops in the history).
+// apply runs ops on a fresh overlay over an emptied store (pre-populated by the 's' ops of the history) or, for the
+// replays of the final content in other orders, over the store as the history left it (they never write to it).
 // Arguments are passed in scratch buffers that are clobbered after each call ("it is safe to modify the contents of
 // the arguments after Put returns").
-func apply(slot int, pre []op, ops []op) (*overlaydb.OverlayDB, *leveldbstore.LevelDBStore) {
-	store := freshStore(slot)
-	for _, o := range pre {
-		if err := store.Put(o.k, o.v); err != nil {
-			panic(err)
-		}
+func apply(reuse *leveldbstore.LevelDBStore, ops []op) (*overlaydb.OverlayDB, *leveldbstore.LevelDBStore) {
+	store := reuse
+	if store == nil {
+		store = freshStore(0)
 	}
 	ov := overlaydb.NewOverlayDB(store)
 	var ks, vs []byte
@@ -262,7 +261,7 @@ func exec(line string) hx.Result {
 	if !ok {
 		return hx.Result{Out: "bad-op"}
 	}
-	ov, _ := apply(0, nil, ops)
+	ov, store := apply(nil, ops)
 	ws := ov.GetWriteSet()
 	d := dump(ov)
 	// probes
@@ -467,14 +466,9 @@ func exec(line string) hx.Result {
 			scr[i].kind = 'd'
 		}
 	}
-	var pre []op
-	for k, v := range stored {
-		pre = append(pre, op{'s', []byte(k), v})
-	}
-	sort.Slice(pre, func(i, j int) bool { return bytes.Compare(pre[i].k, pre[j].k) < 0 })
-	for slot, name := range []string{"ascending", "descending", "scrambled"} {
+	for _, name := range []string{"ascending", "descending", "scrambled"} {
 		alt := map[string][]op{"ascending": asc, "descending": desc, "scrambled": scr}[name]
-		ov2, _ := apply(slot+1, pre, alt)
+		ov2, _ := apply(store, alt)
 		d2 := dump(ov2)
 		if showKVs(d2) != showKVs(d) {
 			return fail("writeset-order-dependent", name+" replay of the final content leaves "+showKVs(d2))
